@@ -3,60 +3,174 @@
    Print Assumptions.
 
    [validate_sidecar fixed Vd Vb Vc Vh Vf j] is the model of
-   Sidecar(io.StringIO(json_text)).validate(schema); Vd..Vf are the abstract
-   string-level validators (ALL theorems quantify over them), [fixed = false]
-   is the code as it exists, [fixed = true] the proposed repairs.
-
-   FULL STATEMENT of the first clause (false of the code as it exists):
-     forall Vd Vb Vc Vh Vf j, exists l, validate_sidecar false Vd Vb Vc Vh Vf j = Ok l *)
+   Sidecar(io.StringIO(json_text)).validate(schema).  Vd..Vf are the abstract
+   string-level validators -- ALL theorems quantify over them and over ALL
+   JSON values.  [fixed = true] is the code as it is now (with the fix:
+   commits ae9929b, 8a59f35, f477d0a); [fixed = false] is the code before them
+   and only appears in part II, the record of the repaired defects. *)
 From Coq Require Import List NArith.
-From HV Require Import Base.Res Base.Str Gen.SidecarCodes Model.Sidecar Proofs.SidecarProofs.
+From HV Require Import Base.Res Base.Str Gen.SidecarCodes Model.Sidecar
+                       Proofs.SidecarProofs Proofs.SidecarClean.
 Import ListNotations.
 
-(* The full statement is refuted by three documents: {"TaskName": "rest"}
-   (AttributeError), [1] (TypeError while loading), {"onset": {"HED": "{col1}"}}
-   (KeyError).  Replayed on the implementation: findings C08-F1, F2, F3. *)
-Theorem C08_never_raises_refuted :
-  exists j1 j2 j3, forall Vd Vb Vc Vh Vf,
-    validate_sidecar false Vd Vb Vc Vh Vf j1 = Exn AttributeError /\
-    validate_sidecar false Vd Vb Vc Vh Vf j2 = Exn TypeError /\
-    validate_sidecar false Vd Vb Vc Vh Vf j3 = Exn KeyError.
-Proof. exact never_raises_refuted. Qed.
-Print Assumptions C08_never_raises_refuted.
+(* ====================================================================== *)
+(* I. The code as it is now                                               *)
 
-(* Code as it exists: never raises on any object whose entries are all objects
-   and whose '#'-less value strings reference only sidecar columns or HED. *)
-Theorem C08_never_raises_partial : forall Vd Vb Vc Vh Vf kvs,
-  cols_objects kvs = true -> hashless_refs_known kvs = true ->
-  exists l, validate_sidecar false Vd Vb Vc Vh Vf (JObj kvs) = Ok l.
-Proof. exact never_raises_partial. Qed.
-Print Assumptions C08_never_raises_partial.
-
-(* Repaired code: never raises on ANY JSON object, whatever the types and
+(* Clause 1: validating any JSON object never raises, whatever the types and
    nesting of its values ... *)
-Theorem C08_never_raises_fixed : forall Vd Vb Vc Vh Vf kvs,
+Theorem C08_never_raises : forall Vd Vb Vc Vh Vf kvs,
   exists l, validate_sidecar true Vd Vb Vc Vh Vf (JObj kvs) = Ok l.
 Proof. exact never_raises_fixed. Qed.
-Print Assumptions C08_never_raises_fixed.
+Print Assumptions C08_never_raises.
 
 (* ... and a document that is not an object is refused while loading with the
-   documented HedFileError. *)
-Theorem C08_nonobject_refused_fixed : forall Vd Vb Vc Vh Vf j,
+   documented HedFileError (it is not a sidecar). *)
+Theorem C08_nonobject_refused : forall Vd Vb Vc Vh Vf j,
   is_obj j = false -> validate_sidecar true Vd Vb Vc Vh Vf j = Exn HedFileError.
 Proof. exact nonobject_refused_fixed. Qed.
-Print Assumptions C08_nonobject_refused_fixed.
+Print Assumptions C08_nonobject_refused.
 
-(* The three refuting documents under the repairs. *)
-Theorem C08_witnesses_fixed : forall Vd Vb Vc Vh Vf,
-  (exists l, validate_sidecar true Vd Vb Vc Vh Vf w_taskname = Ok l) /\
-  validate_sidecar true Vd Vb Vc Vh Vf w_toplist = Exn HedFileError /\
-  (exists l, validate_sidecar true Vd Vb Vc Vh Vf w_keyerror = Ok l /\
-             In c_SIDECAR_BRACES_INVALID (error_codes l)).
-Proof. exact witnesses_fixed. Qed.
-Print Assumptions C08_witnesses_fixed.
+(* Clause 2 (wellformed_clean): a sidecar obeying the structural rules
+   (struct_ok, Model/Sidecar.v: HED entries are strings with exactly one '#' or
+   non-empty maps of non-empty '#'-free strings whose keys are not n/a; HED is
+   not a column name nor a key inside plain metadata; braces balanced and
+   un-nested; references name HED or an existing HED-bearing column, not the
+   column itself, and referenced columns hold no references) whose strings are
+   individually valid yields no error-severity issue.
+   "Individually valid" = the string-level validators report no error on the
+   strings of the document and on their reference substitutions, count
+   placeholders exactly on definition-free strings, and no column mixes
+   definition and non-definition strings. *)
+Theorem C08_wellformed_clean : forall Vd Vb Vc Vh Vf sc,
+  struct_ok sc = true ->
+  any_error (Vd (doc_strings sc)) = false ->
+  (forall s, In s (doc_strings sc) -> any_error (Vb (doc_strings sc) s) = false) ->
+  (forall s refs combo, In s (doc_strings sc) -> any_error (Vf (doc_strings sc) s refs combo) = false) ->
+  (forall s, In s (doc_strings sc) -> Vc s = 0 -> Vh (doc_strings sc) s = count ch_hash s) ->
+  (forall col, In col sc -> (forall s, In s (column_strings (snd col)) -> Vc s = 0) \/
+                            (forall s, In s (column_strings (snd col)) -> Vc s <> 0)) ->
+  exists out, validate_sidecar true Vd Vb Vc Vh Vf (JObj sc) = Ok out /\ error_codes out = [].
+Proof. exact now_wellformed_clean. Qed.
+Print Assumptions C08_wellformed_clean.
 
-(* The published codes and reserved names the theorems below speak about are
-   the ones registered in the sources (regenerated table = expected table). *)
+(* Clause 3 (fault_flagged), one theorem per structural rule.  Each holds for
+   EVERY sidecar containing the fault (not only otherwise well-formed ones). *)
+
+(* HED used as a column name *)
+Theorem C08_fault_hed_column : forall Vd Vb Vc Vh Vf sc v,
+  In (s_HED, v) sc ->
+  exists out, validate_sidecar true Vd Vb Vc Vh Vf (JObj sc) = Ok out /\
+              In c_SIDECAR_INVALID (error_codes out).
+Proof. exact now_fault_hed_column. Qed.
+Print Assumptions C08_fault_hed_column.
+
+(* n/a used as a category key *)
+Theorem C08_fault_na_key : forall Vd Vb Vc Vh Vf sc name kvs hv s,
+  In (name, JObj kvs) sc -> name <> s_HED ->
+  lookup s_HED kvs = Some (JObj hv) -> In (s_NA, JStr s) hv -> s <> [] ->
+  exists out, validate_sidecar true Vd Vb Vc Vh Vf (JObj sc) = Ok out /\
+              In c_SIDECAR_INVALID (error_codes out).
+Proof. exact now_fault_na_key. Qed.
+Print Assumptions C08_fault_na_key.
+
+(* HED entry that is neither a string nor a map *)
+Theorem C08_fault_hed_entry_type : forall Vd Vb Vc Vh Vf sc name kvs h,
+  In (name, JObj kvs) sc -> name <> s_HED ->
+  lookup s_HED kvs = Some h -> is_str h = false -> is_obj h = false ->
+  exists out, validate_sidecar true Vd Vb Vc Vh Vf (JObj sc) = Ok out /\
+              In c_sidecarUnknownColumn (error_codes out).
+Proof. exact now_fault_hed_entry_type. Qed.
+Print Assumptions C08_fault_hed_entry_type.
+
+(* category value that is not a string (truthy / empty-or-falsy) *)
+Theorem C08_fault_category_nonstring : forall Vd Vb Vc Vh Vf sc name kvs hv key val,
+  In (name, JObj kvs) sc -> name <> s_HED ->
+  lookup s_HED kvs = Some (JObj hv) -> In (key, val) hv -> truthy val = true -> is_str val = false ->
+  exists out, validate_sidecar true Vd Vb Vc Vh Vf (JObj sc) = Ok out /\
+              In c_wrongHedDataType (error_codes out).
+Proof. exact now_fault_category_nonstring. Qed.
+Print Assumptions C08_fault_category_nonstring.
+
+Theorem C08_fault_category_blank : forall Vd Vb Vc Vh Vf sc name kvs hv key val,
+  In (name, JObj kvs) sc -> name <> s_HED ->
+  lookup s_HED kvs = Some (JObj hv) -> In (key, val) hv -> truthy val = false ->
+  exists out, validate_sidecar true Vd Vb Vc Vh Vf (JObj sc) = Ok out /\
+              In c_blankValueString (error_codes out).
+Proof. exact now_fault_category_blank. Qed.
+Print Assumptions C08_fault_category_blank.
+
+(* '#' count.  The placeholder check runs after the only allowed early exit,
+   so for EVERY sidecar with the fault either PLACEHOLDER_INVALID is reported,
+   or the structure/reference screening already reported an error and the
+   result is exactly the screening issues ([early_exit], which implies
+   error_codes out <> [], C08_early_exit_has_error).  Hypotheses on the string
+   level: the string holds no definition and its placeholders are counted
+   exactly. *)
+Theorem C08_fault_value_hash : forall Vd Vb Vc Vh Vf sc name kvs s,
+  In (name, JObj kvs) sc -> lookup s_HED kvs = Some (JStr s) ->
+  Vc s = 0 -> (forall ds, Vh ds s = count ch_hash s) -> count ch_hash s <> 1 ->
+  exists out, validate_sidecar true Vd Vb Vc Vh Vf (JObj sc) = Ok out /\
+              (In c_PLACEHOLDER_INVALID (error_codes out) \/ early_exit true sc out).
+Proof. exact now_fault_value_hash. Qed.
+Print Assumptions C08_fault_value_hash.
+
+Theorem C08_fault_category_hash : forall Vd Vb Vc Vh Vf sc name kvs hv key s,
+  In (name, JObj kvs) sc -> lookup s_HED kvs = Some (JObj hv) -> In (key, JStr s) hv ->
+  Vc s = 0 -> (forall ds, Vh ds s = count ch_hash s) -> count ch_hash s <> 0 ->
+  exists out, validate_sidecar true Vd Vb Vc Vh Vf (JObj sc) = Ok out /\
+              (In c_PLACEHOLDER_INVALID (error_codes out) \/ early_exit true sc out).
+Proof. exact now_fault_category_hash. Qed.
+Print Assumptions C08_fault_category_hash.
+
+Theorem C08_early_exit_has_error : forall fixed sc out,
+  early_exit fixed sc out -> error_codes out <> [].
+Proof. exact early_exit_has_error. Qed.
+Print Assumptions C08_early_exit_has_error.
+
+(* unbalanced or nested curly braces in a string of a HED-bearing column *)
+Theorem C08_fault_braces : forall Vd Vb Vc Vh Vf sc name v s,
+  In (name, v) sc -> hed_bearing v = true -> In s (column_strings v) -> braces_ok s = false ->
+  exists out, validate_sidecar true Vd Vb Vc Vh Vf (JObj sc) = Ok out /\
+              In c_SIDECAR_BRACES_INVALID (error_codes out).
+Proof. exact now_fault_braces. Qed.
+Print Assumptions C08_fault_braces.
+
+(* reference to something that is neither HED nor a HED-bearing column *)
+Theorem C08_fault_unknown_ref : forall Vd Vb Vc Vh Vf sc name v s m,
+  In (name, v) sc -> hed_bearing v = true -> In s (column_strings v) ->
+  In m (find_refs s) -> m <> s_HED -> ~ In m (all_hed_columns sc) ->
+  exists out, validate_sidecar true Vd Vb Vc Vh Vf (JObj sc) = Ok out /\
+              In c_SIDECAR_BRACES_INVALID (error_codes out).
+Proof. exact now_fault_unknown_ref. Qed.
+Print Assumptions C08_fault_unknown_ref.
+
+(* a column referencing itself *)
+Theorem C08_fault_self_ref : forall Vd Vb Vc Vh Vf sc name v s,
+  In (name, v) sc -> hed_bearing v = true -> In s (column_strings v) -> In name (find_refs s) ->
+  exists out, validate_sidecar true Vd Vb Vc Vh Vf (JObj sc) = Ok out /\
+              In c_SIDECAR_BRACES_INVALID (error_codes out).
+Proof. exact now_fault_self_ref. Qed.
+Print Assumptions C08_fault_self_ref.
+
+(* nested references: column n1 references column n2, which itself holds a
+   reference -- wherever the two columns stand in the sidecar *)
+Theorem C08_fault_nested_ref : forall Vd Vb Vc Vh Vf sc n1 v1 n2 v2,
+  In (n1, v1) sc -> In (n2, v2) sc -> n1 <> n2 -> hed_bearing v1 = true -> hed_bearing v2 = true ->
+  In n2 (col_refs v1) -> col_refs v2 <> [] ->
+  exists out, validate_sidecar true Vd Vb Vc Vh Vf (JObj sc) = Ok out /\
+              In c_SIDECAR_BRACES_INVALID (error_codes out).
+Proof. exact now_fault_nested_ref. Qed.
+Print Assumptions C08_fault_nested_ref.
+
+(* The validator's brace scan reports nothing exactly for balanced,
+   un-nested braces (all strings). *)
+Theorem C08_braces_spec : forall s : str,
+  find_non_matching_braces s = [] <-> braces_ok s = true.
+Proof. exact braces_spec. Qed.
+Print Assumptions C08_braces_spec.
+
+(* The published codes the theorems speak about are the ones registered in
+   the sources (regenerated table = expected table). *)
 Theorem C08_codes :
   kind_code K_SIDECAR_HED_USED_COLUMN = c_SIDECAR_INVALID /\
   kind_code K_SIDECAR_HED_USED = c_SIDECAR_INVALID /\
@@ -73,91 +187,45 @@ Theorem C08_codes :
 Proof. exact spec_codes. Qed.
 Print Assumptions C08_codes.
 
-(* The validator's brace scan reports nothing exactly for balanced,
-   non-nested braces (all strings). *)
-Theorem C08_braces_spec : forall s : str,
-  find_non_matching_braces s = [] <-> braces_ok s = true.
-Proof. exact braces_spec. Qed.
-Print Assumptions C08_braces_spec.
-
-(* ---- fault_flagged, one theorem per structural rule.  [all_good fixed sc]:
-   fixed = true, or every entry of sc is an object (without it the code as it
-   exists raises before reporting, finding C08-F1).  Each holds for EVERY
-   sidecar containing the fault, not only for otherwise well-formed ones. ---- *)
-
-(* HED used as a column name *)
-Theorem C08_fault_hed_column : forall fixed Vd Vb Vc Vh Vf sc v,
-  all_good fixed sc -> In (s_HED, v) sc ->
-  exists out, validate_loaded fixed Vd Vb Vc Vh Vf sc = Ok out /\
-              In c_SIDECAR_INVALID (error_codes out).
-Proof. exact fault_hed_column. Qed.
-Print Assumptions C08_fault_hed_column.
-
-(* n/a used as a category key *)
-Theorem C08_fault_na_key : forall fixed Vd Vb Vc Vh Vf sc name kvs hv s,
-  all_good fixed sc -> In (name, JObj kvs) sc -> name <> s_HED ->
-  lookup s_HED kvs = Some (JObj hv) -> In (s_NA, JStr s) hv -> s <> [] ->
-  exists out, validate_loaded fixed Vd Vb Vc Vh Vf sc = Ok out /\
-              In c_SIDECAR_INVALID (error_codes out).
-Proof. exact fault_na_key'. Qed.
-Print Assumptions C08_fault_na_key.
-
-(* HED entry that is neither a string nor a map *)
-Theorem C08_fault_hed_entry_type : forall fixed Vd Vb Vc Vh Vf sc name kvs h,
-  all_good fixed sc -> In (name, JObj kvs) sc -> name <> s_HED ->
-  lookup s_HED kvs = Some h -> is_str h = false -> is_obj h = false ->
-  exists out, validate_loaded fixed Vd Vb Vc Vh Vf sc = Ok out /\
-              In c_sidecarUnknownColumn (error_codes out).
-Proof. exact fault_hed_entry_type'. Qed.
-Print Assumptions C08_fault_hed_entry_type.
-
-(* category value that is not a string (truthy / falsy) *)
-Theorem C08_fault_category_nonstring : forall fixed Vd Vb Vc Vh Vf sc name kvs hv key val,
-  all_good fixed sc -> In (name, JObj kvs) sc -> name <> s_HED ->
-  lookup s_HED kvs = Some (JObj hv) -> In (key, val) hv -> truthy val = true -> is_str val = false ->
-  exists out, validate_loaded fixed Vd Vb Vc Vh Vf sc = Ok out /\
-              In c_wrongHedDataType (error_codes out).
-Proof. exact fault_category_nonstring'. Qed.
-Print Assumptions C08_fault_category_nonstring.
-
-Theorem C08_fault_category_blank : forall fixed Vd Vb Vc Vh Vf sc name kvs hv key val,
-  all_good fixed sc -> In (name, JObj kvs) sc -> name <> s_HED ->
-  lookup s_HED kvs = Some (JObj hv) -> In (key, val) hv -> truthy val = false ->
-  exists out, validate_loaded fixed Vd Vb Vc Vh Vf sc = Ok out /\
-              In c_blankValueString (error_codes out).
-Proof. exact fault_category_blank'. Qed.
-Print Assumptions C08_fault_category_blank.
-
-(* unbalanced or nested curly braces in a string of a HED-bearing column *)
-Theorem C08_fault_braces : forall fixed Vd Vb Vc Vh Vf sc name v s,
-  all_good fixed sc -> In (name, v) sc -> hed_bearing v = true -> In s (column_strings v) ->
-  braces_ok s = false ->
-  exists out, validate_loaded fixed Vd Vb Vc Vh Vf sc = Ok out /\
-              In c_SIDECAR_BRACES_INVALID (error_codes out).
-Proof. exact fault_braces. Qed.
-Print Assumptions C08_fault_braces.
-
-(* reference to something that is neither HED nor a HED-bearing column *)
-Theorem C08_fault_unknown_ref : forall fixed Vd Vb Vc Vh Vf sc name v s m,
-  all_good fixed sc -> In (name, v) sc -> hed_bearing v = true -> In s (column_strings v) ->
-  In m (find_refs s) -> m <> s_HED -> ~ In m (all_hed_columns sc) ->
-  exists out, validate_loaded fixed Vd Vb Vc Vh Vf sc = Ok out /\
-              In c_SIDECAR_BRACES_INVALID (error_codes out).
-Proof. exact fault_unknown_ref. Qed.
-Print Assumptions C08_fault_unknown_ref.
-
-(* a column referencing itself *)
-Theorem C08_fault_self_ref : forall fixed Vd Vb Vc Vh Vf sc name v s,
-  all_good fixed sc -> In (name, v) sc -> hed_bearing v = true -> In s (column_strings v) ->
-  In name (find_refs s) ->
-  exists out, validate_loaded fixed Vd Vb Vc Vh Vf sc = Ok out /\
-              In c_SIDECAR_BRACES_INVALID (error_codes out).
-Proof. exact fault_self_ref. Qed.
-Print Assumptions C08_fault_self_ref.
-
 (* non-vacuity: {"a": {"HED": "Label/#, {b}"}, "b": {"HED": {"x": "Red"}}}
-   meets the hypotheses of C08_never_raises_partial and validates cleanly *)
+   satisfies struct_ok and validates to no issue; the same sidecar without the
+   '#' violates struct_ok and yields exactly PLACEHOLDER_INVALID *)
 Example C08_nonvacuous :
-  (exists kvs, w_good = JObj kvs /\ cols_objects kvs = true /\ hashless_refs_known kvs = true) /\
-  validate_sidecar false V0_defs V0_basic V0_defcount V0_hashes V0_full w_good = Ok [].
-Proof. exact good_example. Qed.
+  struct_ok sc_good = true /\
+  validate_sidecar true V0_defs V0_basic V0_defcount V0_hashes V0_full (JObj sc_good) = Ok [] /\
+  struct_ok sc_hash0 = false /\
+  exists out, validate_sidecar true V0_defs V0_basic V0_defcount V0_hashes V0_full (JObj sc_hash0) = Ok out /\
+              error_codes out = [c_PLACEHOLDER_INVALID].
+Proof. exact now_example. Qed.
+
+(* ====================================================================== *)
+(* II. Record of the repaired defects (code before the fix: commits)      *)
+
+(* "never raises" was FALSE of the code before the repairs:
+   {"TaskName": "rest"} raised AttributeError (fixed by ae9929b), [1] raised
+   TypeError while loading (8a59f35), {"onset": {"HED": "{col1}"}} raised
+   KeyError (f477d0a). *)
+Theorem C08_never_raises_refuted :
+  exists j1 j2 j3, forall Vd Vb Vc Vh Vf,
+    validate_sidecar false Vd Vb Vc Vh Vf j1 = Exn AttributeError /\
+    validate_sidecar false Vd Vb Vc Vh Vf j2 = Exn TypeError /\
+    validate_sidecar false Vd Vb Vc Vh Vf j3 = Exn KeyError.
+Proof. exact never_raises_refuted. Qed.
+Print Assumptions C08_never_raises_refuted.
+
+(* what did hold before the repairs: no exception on objects whose entries are
+   all objects and whose '#'-less value strings reference only known columns *)
+Theorem C08_never_raises_partial : forall Vd Vb Vc Vh Vf kvs,
+  cols_objects kvs = true -> hashless_refs_known kvs = true ->
+  exists l, validate_sidecar false Vd Vb Vc Vh Vf (JObj kvs) = Ok l.
+Proof. exact never_raises_partial. Qed.
+Print Assumptions C08_never_raises_partial.
+
+(* the three refuting documents under the repaired code *)
+Theorem C08_witnesses_fixed : forall Vd Vb Vc Vh Vf,
+  (exists l, validate_sidecar true Vd Vb Vc Vh Vf w_taskname = Ok l) /\
+  validate_sidecar true Vd Vb Vc Vh Vf w_toplist = Exn HedFileError /\
+  (exists l, validate_sidecar true Vd Vb Vc Vh Vf w_keyerror = Ok l /\
+             In c_SIDECAR_BRACES_INVALID (error_codes l)).
+Proof. exact witnesses_fixed. Qed.
+Print Assumptions C08_witnesses_fixed.
